@@ -143,10 +143,10 @@ Theorem C05_one_segment_survives_reload :
        exists st1 loaded st2 r,
          load_sections_loop junk (length secs) (open_istream k file) [] (e_cls h') (e_enc h') (e_shoff h') (e_shentsize h')
                             0 (e_shnum h') true [] [] = Ok (st1, rev loaded, []) /\
-         Forall2 same_hdr (el_secs el') loaded /\
+         Forall2 (fun s x => same_hdr s x /\ s_index x = s_index s) (el_secs el') loaded /\
          load_segments_loop (S f) st1 [] loaded (e_enc h') (g_cls g') (e_phoff h') (e_phentsize h') 0 (e_phnum h') true [] [] =
            Ok (st2, [r], true, []) /\
-         same_phdr g' r /\ g_sections r = idxs).
+         same_phdr g' r /\ g_sections r = idxs /\ g_index r = g_index g').
 Proof. exact oneseg_reload. Qed.
 Print Assumptions C05_one_segment_survives_reload.
 
